@@ -72,7 +72,7 @@ func main() {
 	}
 
 	short := func(p string) string { return strings.TrimPrefix(strings.TrimPrefix(p, modPath), "/") }
-	var mutated, methodCalled, goFuncs, chanMakes, polyAccess []string
+	var mutated, methodCalled, goFuncs, chanMakes, polyAccess, retained, paramWrites []string
 	locksFirst, defersUnlock := false, false
 	goCloseLast := true
 
@@ -130,9 +130,38 @@ func main() {
 						}
 					}
 				}
+				// slice-typed parameters of this function
+				sliceParams := map[types.Object]bool{}
+				if fd.Type.Params != nil {
+					for _, fld := range fd.Type.Params.List {
+						for _, nm := range fld.Names {
+							if obj := p.info.Defs[nm]; obj != nil {
+								if _, ok := obj.Type().Underlying().(*types.Slice); ok {
+									sliceParams[obj] = true
+								}
+							}
+						}
+					}
+				}
 				ast.Inspect(fd.Body, func(n ast.Node) bool {
 					switch x := n.(type) {
 					case *ast.AssignStmt:
+						for i, l := range x.Lhs {
+							// field := bare slice parameter  => the callee keeps the caller's buffer
+							if i < len(x.Rhs) {
+								if rid, ok := x.Rhs[i].(*ast.Ident); ok && sliceParams[p.info.Uses[rid]] {
+									if _, isSel := l.(*ast.SelectorExpr); isSel {
+										retained = append(retained, qual)
+									}
+								}
+							}
+							// param[i] = ...  => the callee writes into the caller's buffer
+							if ix, ok := l.(*ast.IndexExpr); ok {
+								if bid, ok := ix.X.(*ast.Ident); ok && sliceParams[p.info.Uses[bid]] && fd.Name.IsExported() {
+									paramWrites = append(paramWrites, qual)
+								}
+							}
+						}
 						if inInit {
 							break
 						}
@@ -239,6 +268,8 @@ func main() {
 	sort.Strings(chanMakes)
 	fmt.Fprintf(&sb, "(* one entry per make(chan ...) *)\nDefinition sync_chan_makes : list string := %s.\n", coqStrs(chanMakes))
 	fmt.Fprintf(&sb, "(* every go statement runs a function literal whose last statement is close(ch) *)\nDefinition sync_goroutines_close_last : bool := %v.\n", goCloseLast)
+	fmt.Fprintf(&sb, "(* functions that store a slice-typed parameter itself (not a copy) into a struct field *)\nDefinition sync_slice_params_retained : list string := %s.\n", coqStrs(uniq(retained)))
+	fmt.Fprintf(&sb, "(* exported functions that assign to an element of a slice-typed parameter *)\nDefinition sync_slice_params_written : list string := %s.\n", coqStrs(uniq(paramWrites)))
 	txt := sb.String()
 	old, err := os.ReadFile(os.Args[1])
 	if err == nil && string(old) == txt {
